@@ -303,6 +303,7 @@ func c01Triggers(q *reqSpec) []string {
 func TestC01(t *testing.T) {
 	r := vf.Begin(t, "C01")
 	defer r.End()
+	defer perturbReport(r)
 	r.Describe("PRNG scenarios on one server connection in a synctest bubble: 1-8 (thorough up to 32) well-formed requests (7 methods, paths with queries, 0-12 regular fields incl. repeated names, cookies, te: trailers, empty/long values, optional trailers, bodies 0..300 KiB) "+
 		"encoded by the harness' HPACK encoder with random representation/Huffman/index choices and dynamic-table reuse across streams, header blocks cut at arbitrary bytes into HEADERS+CONTINUATION, padding, priority sections, DATA chunking with empty and padded frames, four END_STREAM placements, random cross-stream interleaving, "+
 		"handlers parked and released in PRNG order, buffered and streamed (declared/unknown length, 1-byte..100 KiB reads) responses up to 300 KiB under huge or incrementally granted windows. Oracle: handler ran exactly once per tag and saw exactly the sent method/URI/host/fields/trailers/body; the peer (x/net Framer+HPACK) got exactly the planned status/fields/body, one END_STREAM, no error frames. "+
